@@ -4,7 +4,7 @@ a GATING  b COVERAGE  c CLASSIFY  d HEADER-VALIDATION.
 Not decided: that CRC-16/ARC detects the listed error patterns (algebra of the
 polynomial; C16 proves the implementation is that CRC); equivalence with an
 independent reading of the document for arbitrary octet strings."""
-from .. import cast, sym, lin
+from .. import front, cast, sym, lin
 from ..sym import C, fmt, linearize as L
 from ..lin import Lin
 from .regp import Regp, P, MF, FRAME, hdr, strip_cast, backend_calls, reply_calls
@@ -38,6 +38,7 @@ def rule_a(ck, R):
     if ps is not None:
         where = R.where('check_payload')
         bad = None
+        ebad = None
         ncmp = 0
         for p in ps:
             crc = [e for e in p.calls() if e.name.startswith('ufw_') and 'crc16' in e.name]
@@ -59,11 +60,26 @@ def rule_a(ck, R):
                 psz = ('f', ('&', ('f', F, 'payload')), 'size')
                 if R.eng.entails(R.eng.path_facts(p), L(psz)):
                     why.append('empty-payload')
+                if why == ['empty-payload']:
+                    # a declared checksum over no octets is still a declared checksum: the checksum of nothing is the
+                    # initial value, and the field has to be compared with it
+                    try:
+                        init = front.probe_values('src/register-protocol.c', ['CRC16_ARC_INITIAL'])[0]
+                    except Exception as e:
+                        return ck.broken('C07.a', 'check_payload:gating:empty', where, 'initial checksum value not available: %s' % e)
+                    cmp0 = any(c[0] == 'cmp' and c[1] == '==' and 'plcrc' in fmt(c) and (C(init) in (c[2], c[3])) for c in p.cond_terms())
+                    if not cmp0:
+                        ebad = ('a frame that declares a payload checksum (WITH-PAYLOAD-CRC set) but has no payload octets is accepted under {%s} '
+                                'without looking at its payload checksum field: the checksum of no octets is the initial value 0x0000, any other '
+                                'field value is a checksum that does not match, and such a frame is executed and acknowledged'
+                                % '; '.join(fmt(c) for c in p.cond_terms()))
                 if not why:
                     bad = ('the payload checksum comparison is skipped under {%s}: only an unset WITH-PAYLOAD-CRC bit or an empty payload may skip it '
                            '(a frame declaring a payload checksum but no header checksum is accepted unverified)' % '; '.join(fmt(c) for c in p.cond_terms()))
         ck.verdict(bad is None and ncmp >= 2, 'C07.a', 'check_payload:gating', where,
                    'the payload checksum is verified whenever the frame declares one and has payload' if bad is None and ncmp >= 2 else (bad or 'checksum comparison paths not found'))
+        ck.verdict(ebad is None, 'C07.a', 'check_payload:gating:empty', where,
+                   'a declared payload checksum is verified for an empty payload too (no accepting path skips it on payload.size == 0 alone)' if ebad is None else ebad)
     eng = R.engine({'raw_with_hdcrc', 'raw_with_plcrc'})
     ps = R.paths('parse_header', 'C07.a', eng)
     if ps is not None:
